@@ -161,6 +161,28 @@ func init() {
 				e.Subscribe(e.BuildChain(s.Obs(), sc.Stages, auxOf), rec.Obs(), nil)
 			}
 			e.SettleFor(300 * Unit)
+			if len(sc.Stages) == 0 && sc.Sub != "unicast" && !e.K.Capped() {
+				// one more observer arrives when everything is over: what it is handed as the subject's
+				// terminal is the terminal the subject really ended with, not a later (discarded) one
+				post := e.NewRec("post")
+				e.Subscribe(s.Obs(), post.Obs(), nil)
+				e.Settle()
+				checkGrammar(e, post)
+				var first *Ev
+				for _, r := range recs {
+					for i := range r.Events {
+						if r.Events[i].K != 'N' && first == nil {
+							first = &r.Events[i]
+						}
+					}
+				}
+				for i := range post.Events {
+					pe := post.Events[i]
+					if pe.K != 'N' && first != nil && (pe.K != first.K || pe.Err != first.Err) {
+						e.Violate("C01", "late-terminal-replayed", fmt.Sprintf("%s subject: the observers present at the time received %s as the terminal notification; an observer subscribing afterwards is handed %s: a notification emitted after the terminal was kept and delivered", sc.Sub, first.String(), pe.String()))
+					}
+				}
+			}
 			for _, r := range recs {
 				checkGrammar(e, r)
 			}
